@@ -126,6 +126,7 @@ func (c *Check) Execute(t Tier) int {
 	var scen []Stats
 	states, trans, replayed, evals := 0, 0, 0, 0
 	unconfirmed, mismatches := 0, 0
+	hiddenState := false
 	exhaustive := true
 	var samples []any
 	outcomes := map[string]int{}
@@ -146,51 +147,84 @@ func (c *Check) Execute(t Tier) int {
 		for k, v := range st.Outcomes {
 			outcomes[k] += v
 		}
-		// believe a violation only if it reproduces on two fresh replays (fresh application, whole
-		// path from genesis, no restore): that is what a real node executing this history does. A
-		// discrepancy seen only on a re-used, restored instance is an artefact of state the
-		// application keeps outside its database (C01's subject), not a violation of this property.
-		// Candidates arrive in BFS order (shortest first), grouped here by kind and signature; each
-		// group is confirmed in parallel batches until two counterexamples reproduce.
-		groups := map[string][]Violation{}
-		var order []string
-		for _, v := range vs {
-			k := v.Disc.Kind + fmt.Sprint(v.Disc.Sig)
-			if _, ok := groups[k]; !ok {
-				order = append(order, k)
+		confirm := func(vs []Violation) (kept []Violation, dropped int) {
+			// believe a violation only if it reproduces on two fresh replays (fresh application, whole
+			// path from genesis, no restore): that is what a real node executing this history does. A
+			// discrepancy seen only on a re-used, restored instance is an artefact of state the
+			// application keeps outside its database (C01's subject), not a violation of this property.
+			// Candidates arrive in BFS order (shortest first), grouped here by kind and signature; each
+			// group is confirmed in parallel batches until two counterexamples reproduce.
+			groups := map[string][]Violation{}
+			var order []string
+			for _, v := range vs {
+				k := v.Disc.Kind + fmt.Sprint(v.Disc.Sig)
+				if _, ok := groups[k]; !ok {
+					order = append(order, k)
+				}
+				groups[k] = append(groups[k], v)
 			}
-			groups[k] = append(groups[k], v)
-		}
-		for _, k := range order {
-			g := groups[k]
-			got := 0
-			for i := 0; i < len(g) && got < 2; i += 16 {
-				j := i + 16
-				if j > len(g) {
-					j = len(g)
-				}
-				ok := make([]bool, j-i)
-				var wg sync.WaitGroup
-				for x := i; x < j; x++ {
-					wg.Add(1)
-					go func(x int) { defer wg.Done(); ok[x-i] = r.S.Confirm(g[x]) }(x)
-				}
-				wg.Wait()
-				for x := i; x < j; x++ {
-					if !ok[x-i] {
-						if unconfirmed < 5 {
-							fmt.Fprintf(os.Stderr, "UNCONFIRMED: %s path %v does not reproduce on a fresh application: %s: %s\n", r.S.Name, g[x].Path, g[x].Disc.Kind, g[x].Disc.Detail)
+			for _, k := range order {
+				g := groups[k]
+				got := 0
+				for i := 0; i < len(g) && got < 2; i += 16 {
+					j := i + 16
+					if j > len(g) {
+						j = len(g)
+					}
+					ok := make([]bool, j-i)
+					var wg sync.WaitGroup
+					for x := i; x < j; x++ {
+						wg.Add(1)
+						go func(x int) { defer wg.Done(); ok[x-i] = r.S.Confirm(g[x]) }(x)
+					}
+					wg.Wait()
+					for x := i; x < j; x++ {
+						if !ok[x-i] {
+							if unconfirmed+dropped < 5 {
+								fmt.Fprintf(os.Stderr, "UNCONFIRMED: %s path %v does not reproduce on a fresh application: %s: %s\n", r.S.Name, g[x].Path, g[x].Disc.Kind, g[x].Disc.Detail)
+							}
+							dropped++
+							continue
 						}
-						unconfirmed++
-						continue
-					}
-					if got < 2 {
-						got++
-						all = append(all, g[x])
+						if got < 2 {
+							got++
+							kept = append(kept, g[x])
+						}
 					}
 				}
 			}
+			return
 		}
+		kept, dropped := confirm(vs)
+		if (dropped > 0 || st.ConformanceMismatches > 0) && !opt.FreshJobs && !opt.NoOracle {
+			// The re-used, restored application instances of the search do not behave like fresh ones:
+			// the application keeps state outside its database. What was explored cannot be trusted, so
+			// the scenario is explored again without any instance re-use: every transition on a fresh
+			// application that replays the whole path from genesis (what a real node does). Slower by an
+			// order of magnitude; the same depth bound applies, the budget decides how far it gets.
+			fmt.Fprintf(os.Stderr, "[%s] scenario %s: %d discrepancies did not reproduce on fresh applications, %d explored states differ from their fresh replay: exploring again with a fresh application per transition\n", c.ID, st.Scenario, dropped, st.ConformanceMismatches)
+			opt2 := opt
+			opt2.FreshJobs, opt2.ReplayEvery = true, 1<<30
+			if opt2.Budget < 100*time.Second {
+				opt2.Budget = 100 * time.Second
+			}
+			st2, vs2 := r.S.Explore(opt2)
+			st2.Scenario += " (fresh application per transition)"
+			scen = append(scen, st2)
+			states += st2.States
+			trans += st2.Transitions
+			evals += st2.OracleEvals
+			hiddenState = true
+			kept2, dropped2 := confirm(vs2)
+			kept = append(kept, kept2...)
+			// what the first pass saw and a fresh node does not is an artefact; what the second pass
+			// reports was produced by fresh nodes only
+			mismatches += st2.ConformanceMismatches - st.ConformanceMismatches
+			dropped = dropped2
+			st = st2
+		}
+		all = append(all, kept...)
+		unconfirmed += dropped
 		fmt.Fprintf(os.Stderr, "[%s] scenario %s: states=%d transitions=%d depth=%d closed=%v exhaustive=%v replayed=%d dead=%d foreign=%v wall=%.1fs %s\n",
 			c.ID, st.Scenario, st.States, st.Transitions, st.DepthCompleted, st.Closed, st.Exhaustive, st.Replayed, st.DeadStates, st.Foreign, st.WallS, st.StoppedBy)
 	}
@@ -254,6 +288,7 @@ func (c *Check) Execute(t Tier) int {
 	ev.Coverage["known_findings_hit"] = kf
 	ev.Coverage["unconfirmed_discrepancies"] = unconfirmed
 	ev.Coverage["conformance_mismatches"] = mismatches
+	ev.Coverage["explored_again_with_fresh_application_per_transition"] = hiddenState
 	if (unconfirmed > 0 || mismatches > 0) && nviol == 0 {
 		// nothing reproducible was found, but the exploration saw behaviour that a fresh application does
 		// not show: the explored instances carried state outside the database, so what was covered
